@@ -2,6 +2,11 @@
 From VP Require Import Base.Tactics Expr.Syntax Expr.Float Expr.Gen_EvalTables Expr.Gen_FoldRules Expr.Model.
 Local Open Scope Z_scope.
 
+Ltac dm :=
+  match goal with
+  | |- context [match ?x with _ => _ end] => destruct x
+  end.
+
 Section Ind.
 Variable O : fops.
 Notation expr := (expr O).
